@@ -1,7 +1,7 @@
 #!/bin/bash
 # tools_confirm_mut.sh <Cxx> <k> : confirm seeded change k of property Cxx in its scratch worktree /tmp/mut/Cxx
 # (demo passes clean, fails patched; the four test modules pass patched). Writes /tmp/mut/Cxx/_mutation/confirm<k>.json
-pid="$1"; k="$2"; wt=/tmp/mut/$pid; m=$wt/_mutation
+pid="$1"; k="$2"; wt=${MUTBASE:-/tmp/mut}/$pid; m=$wt/_mutation
 cd $wt || exit 2
 git checkout -q -- src
 export PYTHONPATH=$wt/src OMP_NUM_THREADS=1 OPENBLAS_NUM_THREADS=1 MKL_NUM_THREADS=1 MPLBACKEND=Agg
